@@ -119,6 +119,10 @@ pub enum Item {
     Expr(&'static [u8]),
     Utf8(&'static str),
     Err(Error),
+    /// a list written as a partially filled `ArrayVec<u8, 8>` (one response data element holding a comma-joined list)
+    ListAv(&'static [u8]),
+    /// the same list written as a `Vec<u8>` (only on growable-buffer runs: it allocates)
+    ListVec(&'static [u8]),
 }
 
 #[derive(Clone, Copy, Debug)]
@@ -645,6 +649,16 @@ pub fn write_item(resp: &mut ResponseUnit, it: &Item) {
         }
         Item::Err(e) => {
             resp.data(e);
+        }
+        Item::ListAv(v) => {
+            let mut l: arrayvec::ArrayVec<u8, 8> = arrayvec::ArrayVec::new();
+            for x in v.iter().take(8) {
+                l.push(*x);
+            }
+            resp.data(l);
+        }
+        Item::ListVec(v) => {
+            resp.data(v.to_vec());
         }
     }
 }
